@@ -23,6 +23,7 @@ EXPECTED_PROBES = ["c16-requests-modelled", "c16-cutoff-refusals-modelled", "c16
 ASSUMPTIONS = ["durations are differences of the virtual clock, which advances only inside the objective"]
 
 PROFILE = P.profile(p_extra_layers=1.0, p_cutoff=0.5, p_clock_jumps=0.5, p_shared_stack=0.5,
+                    root_engines={"custom": 1.5}, mid_engines={"custom": 1.0}, leaf_engines={"custom": 1.0},
                     entry_w={"tree": 9, "hms": 1, "minimize": 1},
                     gsc_w={"metaepoch_limit": 4, "singular_eval_limit": 3, "fitness_eval_limit": 2, "precision": 3,
                            "root_stopped": 0.5, "all_stopped": 0.5, "no_active_nonroot": 0.5, "dont_run": 0.1})
@@ -62,6 +63,11 @@ def gen(seed, tier):
                 if r.random() < 0.25:
                     l["pre_evals"] = r.randint(1, 4)
                 break
+    if seed % 2 == 0:
+        for l in pl["levels"]:
+            if l["engine"] == "custom":
+                l["custom_fine"] = True  # a user engine that breeds with Individual.clone() and evaluates the clones
+                pl["entry"] = "tree"
     if seed % 83 == 11:
         # long-lived wrapper instances: 10^3 .. 3*10^5 evaluations went through the stack before this tree
         for st in pl["stacks"]:
